@@ -272,7 +272,11 @@ func (g *gen) noti(targets []string, ts int64) *Noti {
 	nu := r.Pick(2, 10, 4, 2)
 	nd := r.Pick(10, 3, 1)
 	for i := 0; i < nu; i++ {
-		n.Upd = append(n.Upd, Upd{Path: g.path(true, true), Val: g.value()})
+		u := Upd{Path: g.path(true, true), Val: g.value()}
+		if r.Chance(1, 10) {
+			u.Dep = &Dep{Enc: int32(r.Intn(3)), B: []string{`{"a":1}`, "ab", ""}[r.Intn(3)]}
+		}
+		n.Upd = append(n.Upd, u)
 	}
 	for i := 0; i < nd; i++ {
 		n.Del = append(n.Del, *g.path(false, true))
@@ -813,6 +817,80 @@ func pairsIngest(emit func(Case)) {
 	flush()
 }
 
+// encodingPool: how an update can carry its value: typed value, deprecated
+// Update.value only (JSON / bytes / another encoding), neither, both
+func encodingPool() []Upd {
+	return []Upd{
+		{Val: TV{K: "int", I: 1}}, {Val: TV{K: "int", I: 2}}, {Val: TV{K: "json", S: `{"a":1}`}}, {Val: TV{K: "unset"}},
+		{Val: TV{K: "nil"}, Dep: &Dep{Enc: 0, B: `{"a":1}`}}, {Val: TV{K: "nil"}, Dep: &Dep{Enc: 0, B: `{"a":2}`}},
+		{Val: TV{K: "nil"}, Dep: &Dep{Enc: 1, B: "ab"}}, {Val: TV{K: "nil"}, Dep: &Dep{Enc: 5, B: ""}},
+		{Val: TV{K: "nil"}},
+		{Val: TV{K: "int", I: 1}, Dep: &Dep{Enc: 0, B: `{"a":1}`}}, {Val: TV{K: "unset"}, Dep: &Dep{Enc: 1, B: "ab"}},
+	}
+}
+
+// encodingSequences: every ordered pair of value encodings on ONE leaf x the
+// second timestamp {same, later, earlier} x {atomic, non-atomic} for either
+// step, four leaves per cache, event-driven emulation on / off alternately;
+// in the thorough tier also every ordered triple (non-atomic, later timestamps).
+func encodingSequences(emit func(Case), thorough bool) {
+	pool := encodingPool()
+	targets := []string{"t1", "t2"}
+	leaves := [][]Elem{names("a", "b"), names("c"), names("a", "d"), names("e", "f", "g")}
+	var ops []Op
+	k, cases := 0, 0
+	flush := func() {
+		if len(ops) == 0 {
+			return
+		}
+		emit(Case{Family: "ingest-encodings", Kind: "ingest", Targets: targets, NoEvent: cases%2 == 1, Ops: ops})
+		ops, k = nil, 0
+		cases++
+	}
+	// one update of the leaf, stored non-atomically (prefix t1, path = leaf) or
+	// atomically (prefix t1/leaf, path z): same index path either way
+	mk := func(ts int64, leaf []Elem, u Upd, atomic bool) Op {
+		if atomic {
+			u.Path = &GPath{Elems: names("z")}
+			return Op{K: "msg", N: &Noti{TS: ts, Prefix: &GPath{Target: "t1", Elems: leaf}, Atomic: true, Upd: []Upd{u}}}
+		}
+		u.Path = &GPath{Elems: leaf}
+		return Op{K: "msg", N: &Noti{TS: ts, Prefix: &GPath{Target: "t1"}, Upd: []Upd{u}}}
+	}
+	for _, a := range pool {
+		for _, b := range pool {
+			for _, ts2 := range []int64{5, 6, 4} {
+				for _, at := range [][2]bool{{false, false}, {false, true}, {true, false}, {true, true}} {
+					if (at[0] || at[1]) && ts2 != 6 {
+						continue // atomic combinations with the later timestamp only
+					}
+					ops = append(ops, mk(5, leaves[k], a, at[0]), mk(ts2, leaves[k], b, at[1]))
+					k++
+					if k == len(leaves) {
+						flush()
+					}
+				}
+			}
+		}
+	}
+	flush()
+	if !thorough {
+		return
+	}
+	for _, a := range pool {
+		for _, b := range pool {
+			for _, c := range pool {
+				ops = append(ops, mk(5, leaves[k], a, false), mk(6, leaves[k], b, false), mk(7, leaves[k], c, false))
+				k++
+				if k == len(leaves) {
+					flush()
+				}
+			}
+		}
+	}
+	flush()
+}
+
 // lookalikeIngest: a random walk through the pool on one or two leaves,
 // biased towards staying inside an arm; single, multi and atomic messages.
 func (g *gen) lookalikeIngest() Case {
@@ -854,6 +932,12 @@ func (g *gen) lookalikeIngest() Case {
 			ts--
 		}
 		n := &Noti{TS: ts, Prefix: &GPath{Target: "t1"}, Upd: []Upd{{Path: paths[which], Val: pool[cur[which]]}}}
+		if r.Chance(1, 5) {
+			n.Upd[0].Dep = &Dep{Enc: int32(r.Intn(3)), B: []string{`{"a":1}`, "ab", ""}[r.Intn(3)]}
+			if r.Chance(1, 2) {
+				n.Upd[0].Val = TV{K: "nil"}
+			}
+		}
 		if r.Chance(1, 6) {
 			n.Upd = append(n.Upd, Upd{Path: paths[1-which], Val: pool[cur[1-which]]})
 		}
